@@ -113,6 +113,8 @@ def prop(rng, name, dtype, n, pk=0, kind=None):
             v = rng.normal(scale=30.0, size=m)
         else:
             v = rng.uniform(0, 2e-4, size=m)
+        if dtype == "float16":
+            v = np.clip(v, -6e4, 6e4)
         vals = [float(x) for x in np.asarray(v, dtype=dtype).astype(float)]
     return {"name": name, "dtype": dtype, "k": int(pk), "vals": vals}
 
